@@ -1251,7 +1251,7 @@ impl Unit {
 			));
 		}
 		let mut scale_adjustment = Exact::new(Complex::from(1), true);
-		let mut result_hashmap = HashMap::new();
+		let mut result_hashmap = HashMap::<BaseUnit, Complex>::new();
 		for (mut base_unit, exponent) in hashmap {
 			if base_unit.name() == "celsius" {
 				base_unit = BaseUnit::new_static("kelvin");
@@ -1265,7 +1265,16 @@ impl Unit {
 					int,
 				)?;
 			}
-			result_hashmap.insert(base_unit.clone(), exponent.clone());
+			// several temperature units may map to kelvin: their exponents add up
+			let total = match result_hashmap.remove(&base_unit) {
+				Some(existing) => Exact::new(existing, true)
+					.add(Exact::new(exponent, true), int)?
+					.value,
+				None => exponent,
+			};
+			if total.compare(&0.into(), int)? != Some(Ordering::Equal) {
+				result_hashmap.insert(base_unit, total);
+			}
 		}
 		Ok((result_hashmap, scale_adjustment, Exact::new(0.into(), true)))
 	}
